@@ -165,6 +165,25 @@ def inj_missing_schema(files, cfg, level):
     lvl(cfg, level)["template"] = "file://ok.templ"
 
 
+def inj_required_key_no_data(files, cfg, level):
+    """a custom template whose schema requires a key, and no template-data anywhere: the (empty) data does not satisfy the schema"""
+    files["req.templ"] = "package {{.PkgName}}\n"
+    files["req.templ.schema.json"] = json.dumps({"type": "object", "required": ["must-be-set"], "properties": {"must-be-set": {"type": "string"}}})
+    lvl(cfg, level)["template"] = "file://req.templ"
+    lvl(cfg, level)["formatter"] = "noop"
+
+
+def inj_required_key_empty_data(files, cfg, level):
+    inj_required_key_no_data(files, cfg, level)
+    lvl(cfg, level)["template-data"] = {}
+
+
+def subpkg_regex_list(lst):
+    def inj(files, cfg, level):
+        lvl(cfg, level).update({"recursive": True, "exclude-subpkg-regex": list(lst)})
+    return inj
+
+
 def unknown_key_at(where):
     def inj(files, cfg, level):
         p1 = cfg["packages"][MOD + "/p1"]
@@ -286,6 +305,12 @@ INVALID = {
     "invalid-include-regex": (["root", "pkg"], set_at("include-interface-regex", "([unclosed")),
     "invalid-exclude-regex": (["root", "pkg"], lambda f, c, l: lvl(c, l).update({"include-interface-regex": ".*", "exclude-interface-regex": "(?P<bad"})),
     "invalid-exclude-subpkg-regex": (["root", "pkg"], lambda f, c, l: lvl(c, l).update({"recursive": True, "exclude-subpkg-regex": ["ok", "*bad"]})),
+    # every list entry is an expression of its own: entries that are invalid alone but would be balanced when joined or wrapped are invalid
+    "invalid-exclude-subpkg-regex-balanced-when-joined": (["root", "pkg"], subpkg_regex_list(["gen)|(mocks"])),
+    "invalid-exclude-subpkg-regex-split-group": (["root", "pkg"], subpkg_regex_list(["parent/(gen", "mocks)"])),
+    "invalid-exclude-subpkg-regex-last-entry": (["root", "pkg"], subpkg_regex_list(["zzz", "fine", "[a-"])),
+    "schema-required-key-no-template-data": (["root", "pkg"], inj_required_key_no_data),
+    "schema-required-key-empty-template-data": (["root", "pkg", "iface"], inj_required_key_empty_data),
     "cyclic-templated-value": (ALL_LEVELS, inj_self_ref),
     "cyclic-templated-value-via-filename": (ALL_LEVELS, inj_self_ref_file),
     "templated-value-syntax-error": (ALL_LEVELS, inj_tmpl_syntax),
